@@ -422,8 +422,8 @@ Proof.
     pose proof (ensure_bucket_inv c s b Hi) as H1.
     destruct (ensure_bucket c s b) as [s1 [e|]]; [exact H1|]. cbn [fst] in H1.
     destruct (get_object s1 sb sk) as [e|v sv]; [exact H1|].
-    pose proof (put_object_inv s1 b k (vd_body v) (vd_meta v) H1) as H2.
-    destruct (put_object s1 b k (vd_body v) (vd_meta v)) as [s2 [[e|] vid]]; exact H2.
+    pose proof (put_object_inv s1 b k (vd_body v) (merge_meta m (vd_meta v)) H1) as H2.
+    destruct (put_object s1 b k (vd_body v) (merge_meta m (vd_meta v))) as [s2 [[e|] vid]]; exact H2.
   - (* set versioning *)
     pose proof (ensure_bucket_inv c s b Hi) as H1.
     destruct (ensure_bucket c s b) as [s1 [e|]]; [exact H1|]. cbn [fst] in H1.
@@ -632,7 +632,7 @@ Proof.
     cbn [fst] in H1.
     pose proof (get_object_no_panic s1 sb sk H1) as Hg.
     destruct (get_object s1 sb sk) as [e|v sv]; [cbn [snd]; congruence|].
-    destruct (put_object s1 b k (vd_body v) (vd_meta v)) as [s2 [[e|] vid]] eqn:Ep; [|discriminate].
+    destruct (put_object s1 b k (vd_body v) (merge_meta m (vd_meta v))) as [s2 [[e|] vid]] eqn:Ep; [|discriminate].
     apply put_object_err in Ep. destruct Ep as [-> _]. discriminate.
   - (* set versioning *)
     destruct (ensure_bucket c s b) as [s1 [e|]] eqn:Ee.
@@ -827,15 +827,15 @@ Proof.
 Qed.
 
 (* copy: destination body = source body; the source is unchanged (unless it is the destination) *)
-Lemma law_copy c s sb sk b k s1 body :
-  step c s (OCopy sb sk b k) = (s1, RCopy body) ->
+Lemma law_copy c s sb sk b k m s1 body :
+  step c s (OCopy sb sk b k m) = (s1, RCopy body) ->
   (exists v sv, get_object s sb sk = OObj v sv /\ vd_body v = body) /\
   (exists v' sv', get_object s1 b k = OObj v' sv' /\ vd_body v' = body) /\
   ((sb, sk) <> (b, k) -> get_bucket s sb <> None -> get_object s1 sb sk = get_object s sb sk).
 Proof.
   cbn [step]. destruct (ensure_bucket c s b) as [s0 [e|]] eqn:Ee; [discriminate|].
   destruct (get_object s0 sb sk) as [e|v sv] eqn:Eg; [discriminate|].
-  destruct (put_object s0 b k (vd_body v) (vd_meta v)) as [s2 [[e|] vid]] eqn:Ep; [discriminate|].
+  destruct (put_object s0 b k (vd_body v) (merge_meta m (vd_meta v))) as [s2 [[e|] vid]] eqn:Ep; [discriminate|].
   intros H; inversion H; subst; clear H.
   split; [|split].
   - exists v, sv. split; [|reflexivity].
@@ -843,6 +843,39 @@ Proof.
   - destruct (get_after_put _ _ _ _ _ _ _ Ep) as (v' & sv' & Hg & H1 & _). eauto.
   - intros Hne Hsb. rewrite (get_put_other _ _ _ _ _ _ _ _ _ Ep Hne).
     eapply ensure_bucket_get_other; eassumption.
+Qed.
+
+(* copy: the destination carries the metadata of the copy request, completed by the source's
+   (the ACL excepted); the source object, metadata included, is untouched (see [law_copy]) *)
+Lemma law_copy_meta c s sb sk b k m s1 body :
+  step c s (OCopy sb sk b k m) = (s1, RCopy body) ->
+  exists v sv v' sv', get_object s sb sk = OObj v sv /\ get_object s1 b k = OObj v' sv' /\
+                      vd_meta v' = merge_meta m (vd_meta v) /\ vd_marker v' = false.
+Proof.
+  cbn [step]. destruct (ensure_bucket c s b) as [s0 [e|]] eqn:Ee; [discriminate|].
+  destruct (get_object s0 sb sk) as [e|v sv] eqn:Eg; [discriminate|].
+  destruct (put_object s0 b k (vd_body v) (merge_meta m (vd_meta v))) as [s2 [[e|] vid]] eqn:Ep; [discriminate|].
+  intros H; inversion H; subst; clear H.
+  destruct (get_after_put _ _ _ _ _ _ _ Ep) as (v' & sv' & Hg & _ & Hm & Hk).
+  exists v, sv, v', sv'. repeat split; try assumption.
+  destruct (ensure_bucket_get _ _ _ _ _ sb sk Ee) as [H1|(_ & _ & H1)]; congruence.
+Qed.
+
+(* a request header always wins over the source's value; what the request does not name is
+   inherited *)
+Lemma merge_meta_req req src kv : In kv req -> In kv (merge_meta req src).
+Proof. intros H. unfold merge_meta. apply in_or_app. left. exact H. Qed.
+Lemma merge_meta_src req src kv :
+  In kv src -> meta_has (fst kv) req = false -> beq (fst kv) (B "X-Amz-Acl") = false -> In kv (merge_meta req src).
+Proof.
+  intros H Hr Ha. unfold merge_meta. apply in_or_app. right. apply filter_In. split; [exact H|].
+  rewrite Hr, Ha. reflexivity.
+Qed.
+Lemma merge_meta_nil src : (forall kv, In kv src -> beq (fst kv) (B "X-Amz-Acl") = false) -> merge_meta [] src = src.
+Proof.
+  intros H. unfold merge_meta. cbn [app meta_has existsb negb andb].
+  induction src as [|kv src IH]; [reflexivity|]. cbn [filter].
+  rewrite (H kv (or_introl eq_refl)). cbn [negb andb]. f_equal. apply IH. intros kv' Hin. apply H. right. exact Hin.
 Qed.
 
 (* an operation answered with an error leaves the state unchanged (auto-bucket off) *)
@@ -887,7 +920,7 @@ Proof.
   - destruct (He b) as [[e'|] ->]; [reflexivity|]. cbn [snd]. discriminate.
   - destruct (He b) as [[e'|] ->]; [reflexivity|].
     destruct (get_object s sb sk) as [e'|v sv]; [reflexivity|].
-    destruct (put_object s b k (vd_body v) (vd_meta v)) as [s2 [[e'|] vid]] eqn:Ep; cbn [fst snd]; [|discriminate].
+    destruct (put_object s b k (vd_body v) (merge_meta m (vd_meta v))) as [s2 [[e'|] vid]] eqn:Ep; cbn [fst snd]; [|discriminate].
     apply put_object_err in Ep. destruct Ep as [_ ->]. reflexivity.
   - destruct (He b) as [[e'|] ->]; [reflexivity|].
     destruct (negb (cfg_versioned c)); [reflexivity|].
